@@ -48,7 +48,7 @@ INVARIANTS TypeOK GenSound
     return edges, stats
 
 
-def make_scripts(edges, seed):
+def make_scripts(edges, seed, varied=True):
     """One script per edge: a real history from the empty world to the edge's
     pre-state (a shortest path over deterministic edges, chosen at random among
     the shortest ones per seed), then the edge itself (the only logged step)."""
@@ -85,6 +85,28 @@ def make_scripts(edges, seed):
         path_cache[state] = p
         return p
 
+    # every deterministic, non-panicking edge by its post-state (self-loops = read-only calls included)
+    incoming = collections.defaultdict(list)
+    for ed in edges:
+        if not ed['nd'] and not ed['p']:
+            incoming[canon(ed['post'])].append((canon(ed['pre']), ed['e']))
+
+    def wander(state, k):
+        """a random real history ending in `state`: k random steps backwards (any
+        incoming edge, read-only calls and detours included), then a shortest
+        path to where that walk started: hidden state left behind by earlier
+        calls (caches, memos, stale indices) only shows after such histories"""
+        steps = []
+        cur = state
+        for _ in range(k):
+            cands = [(p, e) for p, e in incoming.get(cur, ()) if p in level]
+            if not cands:
+                break
+            p, e = rnd.choice(cands)
+            steps.append(e)
+            cur = p
+        return path(cur) + list(reversed(steps))
+
     scripts = []
     unreachable = 0
     for i, ed in enumerate(edges):
@@ -94,6 +116,9 @@ def make_scripts(edges, seed):
             continue
         steps = path(pre) + [ed['e']]
         scripts.append({'id': i, 'steps': steps, 'log_from': len(steps) - 1, 'pre': ed['pre']})
+        if varied:
+            steps = wander(pre, rnd.randint(2, 6)) + [ed['e']]
+            scripts.append({'id': len(edges) + i, 'steps': steps, 'log_from': len(steps) - 1, 'pre': ed['pre']})
     return scripts, unreachable
 
 
